@@ -511,7 +511,8 @@ def P8(m, R):
         t = lp.test
         first = t.values[0] if isinstance(t, ast.BoolOp) else t
         cons = 'tokenizer while L-%s' % ('outer' if lp in f.body else 'inner')
-        if not (isinstance(first, ast.Compare) and norm(first.comparators[0]) == 'len(%s)' % s):
+        from ..shapes import local_aliases, canon
+        if not (isinstance(first, ast.Compare) and canon(first.comparators[0], local_aliases(f)) == 'len(%s)' % s):
             R.undecided(f, lp, 'loop condition %s' % short(t), construct=cons)
             continue
         n, bad = _while_progress(R, f, lp, cfg, cons, norm(first.left), s,
